@@ -322,6 +322,9 @@ def harvest(ctx, rep, f_de, f_sh):
         for st in records:
             ds = draws_to_model(st["draws"])
             if ds is None:
+                # draws of a kind / shape the named operators do not make: reported, never skipped (a changed sampling routine shows up here first)
+                rep.problem("candidate", f"{kind}: _get_new_individ_g drew random numbers of a kind the named strategy / crossover do not use",
+                            dict(cfg, draws=[list(map(str, d)) for d in st["draws"][:12]]), "unknown-draw-kind", False)
                 continue
             case = dict(cfg, fn="_get_new_individ_g", cur=st["cur"].tolist(), best=np.asarray(st["best"]).tolist(), population=st["pop"].tolist(),
                         Fi=st["F"], CRi=st["CR"], draws=st["draws"], out=st["out"].tolist())
